@@ -110,7 +110,7 @@ func (m *Machine) verifyFunction(key string, fc *FuncContract, opts verifyOpts) 
 			panic(r)
 		}
 	}()
-	m.cur = &runCtx{fn: fn, fc: fc, key: key, params: map[string]Value{}, ptypes: map[string]types.Type{}, noSafety: !opts.safety, allocCheck: opts.allocCheck}
+	m.cur = &runCtx{fn: fn, fc: fc, key: key, params: map[string]Value{}, ptypes: map[string]types.Type{}, noSafety: !opts.safety, allocCheck: opts.allocCheck, freshTerms: map[string]bool{}}
 	m.safetyProps = opts.safetyProp
 	st := &State{mem: map[cellKey]Value{}, ghost: map[string]Value{}}
 	fr := &Frame{fn: fn, regs: map[ssa.Value]Value{}, active: map[*ssa.BasicBlock]*loopCtx{}}
@@ -118,6 +118,9 @@ func (m *Machine) verifyFunction(key string, fc *FuncContract, opts verifyOpts) 
 		v := m.freshValue(p.Name(), p.Type())
 		if sl, ok := v.(*SliceV); ok {
 			m.sliceWF(st, sl)
+			if ss := seqSortFor(sl.Obj.Elem); ss != SObj {
+				m.objFull[sl.Obj] = m.packTerm(st, sl, ss)
+			}
 		}
 		fr.regs[p] = v
 		m.cur.params[p.Name()] = v
@@ -134,6 +137,7 @@ func (m *Machine) verifyFunction(key string, fc *FuncContract, opts verifyOpts) 
 		rep.Unsup = "no body"
 		return
 	}
+	m.cur.entryObjN = m.objN
 	fr.block = fn.Blocks[0]
 	c := &Config{st: st, top: fr}
 	m.cur.old = st // requires are evaluated in the entry state
@@ -155,6 +159,9 @@ func (m *Machine) verifyFunction(key string, fc *FuncContract, opts verifyOpts) 
 			}
 			st.assume(g)
 		}
+	}
+	if fc != nil {
+		m.structuralClauses(c, fn, fc)
 	}
 	// vacuity: the precondition must be satisfiable
 	m.obligs = append(m.obligs, &Obligation{Fn: key, Kind: "requires-sat", PC: append([]Term(nil), st.pc...), Goal: TTrue, ExpectSat: true})
@@ -210,6 +217,36 @@ func (m *Machine) atReturn(c *Config, fn *ssa.Function, fc *FuncContract, result
 	}
 	if fc.HasAssigns {
 		m.frameCheck(c, fn, fc)
+	}
+	if fc.Covers != "" {
+		m.coverageCheck(c, fn, fc)
+	}
+}
+
+// coverageCheck (C11-R1): every field of the covered receiver is assigned on
+// this path or declared config in the contract.
+func (m *Machine) coverageCheck(c *Config, fn *ssa.Function, fc *FuncContract) {
+	pv, ok := m.cur.params[fc.Covers].(*PtrV)
+	if !ok || pv.Obj == nil {
+		m.errs = append(m.errs, "covers: "+fc.Covers+" is not a pointer parameter")
+		return
+	}
+	st, ok := pv.Obj.Typ.Underlying().(*types.Struct)
+	if !ok {
+		m.errs = append(m.errs, "covers: not a struct")
+		return
+	}
+	cfg := map[string]bool{}
+	for _, f := range fc.Config {
+		cfg[f] = true
+	}
+	for i := 0; i < st.NumFields(); i++ {
+		name := st.Field(i).Name()
+		if cfg[name] {
+			continue
+		}
+		written := c.st.written[cellKey{pv.Obj, pathKey([]int{i})}]
+		m.emit(c, "field-coverage", name, []string{"C11"}, mkBool(written), "", "every field of "+fc.Covers+" is assigned by "+funcKey(fn)+" or declared config")
 	}
 }
 
@@ -356,4 +393,42 @@ func contractMentions(fc *FuncContract, names ...string) bool {
 		}
 	}
 	return false
+}
+
+// structuralClauses: obligations over the shape of the SSA (C17 P1): no loops,
+// calls only to the listed callees ("dynamic" = call of a function value).
+func (m *Machine) structuralClauses(c *Config, fn *ssa.Function, fc *FuncContract) {
+	if fc.NoLoops {
+		m.emit(c, "structure", "no-loops", []string{"C17"}, mkBool(len(m.loopsOf(fn).list) == 0), "", "the function contains no loop")
+	}
+	if fc.HasCallsOnly {
+		allowed := map[string]bool{}
+		for _, a := range fc.CallsOnly {
+			allowed[a] = true
+		}
+		for _, b := range fn.Blocks {
+			for _, ins := range b.Instrs {
+				call, ok := ins.(ssa.CallInstruction)
+				if !ok {
+					continue
+				}
+				com := call.Common()
+				name := "dynamic"
+				if com.IsInvoke() {
+					name = ifaceMethodKey(com)
+				} else if bi, ok := com.Value.(*ssa.Builtin); ok {
+					name = "builtin:" + bi.Name()
+				} else if callee := com.StaticCallee(); callee != nil {
+					name = funcKey(callee)
+					if callee.Pkg != m.pkg {
+						name = callee.String()
+					}
+				}
+				_, isGo := ins.(*ssa.Go)
+				_, isDefer := ins.(*ssa.Defer)
+				ok2 := allowed[name] && !isGo && !isDefer
+				m.emit(c, "structure", "calls-only:"+name, []string{"C17"}, mkBool(ok2), m.site(ins), "calls only: "+strings.Join(fc.CallsOnly, ", "))
+			}
+		}
+	}
 }
